@@ -24,6 +24,8 @@ func factsMore(x *extractor) {
 	x.factsProto()
 	x.factsWork()
 	x.factsStatus()
+	x.factsLocks()
+	x.factsCtl()
 }
 
 const netceptorGo = "pkg/netceptor/netceptor.go"
@@ -1528,4 +1530,134 @@ func (x *extractor) factsStatus() {
 		io = fmt.Sprint(x.callPos(a, "json.Marshal") != 0, x.callPos(a, ".Write") != 0, x.callPos(b, "io.ReadAll") != 0, x.callPos(b, "json.Unmarshal") != 0)
 	}
 	x.set("st_io", io)
+}
+
+// ---------------------------------------------------------------- C08: control service
+
+func (x *extractor) factsCtl() {
+	const cs, st = "pkg/controlsvc/controlsvc.go", "pkg/controlsvc/status.go"
+	// requested_fields: comma-ok type assertion?
+	checked := false
+	if fd := x.fn(st, "StatusCommandType", "InitFromJSON"); fd != nil {
+		single := false
+		ast.Inspect(fd.Body, func(n ast.Node) bool {
+			switch v := n.(type) {
+			case *ast.AssignStmt:
+				if len(v.Lhs) == 2 && len(v.Rhs) == 1 {
+					if ta, ok := v.Rhs[0].(*ast.TypeAssertExpr); ok && x.str(ta.X) == "requestedFields" {
+						checked = true
+						return false
+					}
+				}
+			case *ast.TypeAssertExpr:
+				if x.str(v.X) == "requestedFields" {
+					single = true
+				}
+			}
+			return true
+		})
+		if single {
+			checked = false
+		}
+	}
+	x.set("ctl_status_fields_checked", checked)
+	// the line reader and the dispatch of RunControlSession
+	reader, dispatch := "unknown", "unknown"
+	if fd := x.fn(cs, "Server", "RunControlSession"); fd != nil {
+		var conds []string
+		var disp []string
+		ast.Inspect(fd.Body, func(n ast.Node) bool {
+			switch v := n.(type) {
+			case *ast.IfStmt:
+				c := x.str(v.Cond)
+				last := ""
+				if len(v.Body.List) > 0 {
+					last = x.str(v.Body.List[len(v.Body.List)-1])
+				}
+				switch c {
+				case "err == io.EOF", "n == 1", "buf[0] == '\\r'", "buf[0] == '\\n'", "len(cmdBytes) == 0":
+					if len(last) > 12 {
+						last = "…"
+					}
+					conds = append(conds, c+":"+last)
+				case "cmdBytes[0] == '{'":
+					disp = append(disp, c)
+				case "err != nil":
+					// the JSON-error reply: does it end the handling of this line?
+					b := x.str(v.Body)
+					if strings.Contains(b, "ERROR: %s") && !strings.Contains(b, "errorNormal") {
+						if strings.Contains(b, "continue") {
+							disp = append(disp, "json-error:continue")
+						} else {
+							disp = append(disp, "json-error:falls-through")
+						}
+					}
+				}
+			case *ast.CallExpr:
+				f := x.str(v.Fun)
+				if f == "strings.SplitN" || f == "strings.ToLower" {
+					disp = append(disp, x.str(v))
+				}
+			case *ast.BasicLit:
+				if v.Value == `"ERROR: Unknown command\n"` {
+					disp = append(disp, "unknown:"+v.Value)
+				}
+			}
+			return true
+		})
+		reader = strings.Join(conds, ";")
+		dispatch = strings.Join(disp, ";")
+	}
+	x.set("ctl_reader", reader)
+	x.set("ctl_dispatch", dispatch)
+	// the messages of the command parsers
+	var msgs []string
+	type ent struct{ rel, recv, name, tag string }
+	for _, e := range []ent{
+		{"pkg/controlsvc/ping.go", "PingCommandType", "InitFromString", "ping.s"}, {"pkg/controlsvc/ping.go", "PingCommandType", "InitFromJSON", "ping.j"},
+		{st, "StatusCommandType", "InitFromString", "status.s"}, {st, "StatusCommandType", "InitFromJSON", "status.j"},
+		{"pkg/controlsvc/connect.go", "ConnectCommandType", "InitFromString", "connect.s"}, {"pkg/controlsvc/connect.go", "ConnectCommandType", "InitFromJSON", "connect.j"},
+		{"pkg/controlsvc/traceroute.go", "TracerouteCommandType", "InitFromString", "traceroute.s"}, {"pkg/controlsvc/traceroute.go", "TracerouteCommandType", "InitFromJSON", "traceroute.j"},
+		{"pkg/workceptor/controlsvc.go", "workceptorCommandType", "InitFromString", "work.s"}, {"pkg/workceptor/controlsvc.go", "workceptorCommandType", "InitFromJSON", "work.j"},
+		{"pkg/workceptor/controlsvc.go", "", "strFromMap", "str"}, {"pkg/workceptor/controlsvc.go", "", "intFromMap", "int"},
+	} {
+		fd := x.fn(e.rel, e.recv, e.name)
+		if fd == nil {
+			msgs = append(msgs, e.tag+"=unknown")
+			continue
+		}
+		ast.Inspect(fd.Body, func(n ast.Node) bool {
+			if c, ok := n.(*ast.CallExpr); ok && x.str(c.Fun) == "fmt.Errorf" && len(c.Args) > 0 {
+				if bl, ok := c.Args[0].(*ast.BasicLit); ok {
+					s, _ := strconv.Unquote(bl.Value)
+					msgs = append(msgs, e.tag+"="+s)
+				}
+			}
+			return true
+		})
+	}
+	x.set("ctl_msgs", msgs)
+	// the command table
+	table := "unknown"
+	if fd := x.fn(cs, "", "New"); fd != nil {
+		var names []string
+		ast.Inspect(fd.Body, func(n ast.Node) bool {
+			if as, ok := n.(*ast.AssignStmt); ok && len(as.Lhs) == 1 {
+				if ix, ok := as.Lhs[0].(*ast.IndexExpr); ok && x.str(ix.X) == "s.controlTypes" {
+					names = append(names, x.str(ix.Index)+"="+x.str(as.Rhs[0]))
+				}
+			}
+			return true
+		})
+		table = strings.Join(names, ";")
+	}
+	x.set("ctl_table", table)
+	// reload: the whole ControlFunc runs under one package-level mutex
+	serial := false
+	if fd := x.fn("pkg/controlsvc/reload.go", "ReloadCommand", "ControlFunc"); fd != nil && len(fd.Body.List) >= 2 {
+		a, b := x.str(fd.Body.List[0]), x.str(fd.Body.List[1])
+		serial = strings.HasSuffix(a, ".Lock()") && strings.HasPrefix(b, "defer ") && strings.HasSuffix(b, ".Unlock()") &&
+			strings.TrimSuffix(a, ".Lock()") == strings.TrimSuffix(strings.TrimPrefix(b, "defer "), ".Unlock()")
+	}
+	x.set("ctl_reload_serialised", serial)
 }
